@@ -143,9 +143,10 @@ theorem cache_eq_last_message {t : Tables} (ht : TablesOk t) (mp : Maps) (imp : 
 
 /-- **callbacks_once_in_order**: the calls a run makes are the concatenation, in arrival order, of one block per event;
 the history of blocks satisfies `Mirrors`: a block of an effective line calls every live registration of the three
-levels exactly once with the message's parameter and imported item and changes exactly that cache entry, a line that
-is not effective calls nobody, a registration is called back at once for exactly the cached entries it concerns, and
-"live" follows registrations, unregistrations and `UnregisterCallback` -/
+levels exactly once with the message's parameter and imported item (one that a callback of the same block unregisters:
+at most once) and changes exactly that cache entry, a line that is not effective calls nobody, a registration is called
+back at once for exactly the cached entries it concerns, and "live" follows registrations, unregistrations from outside
+and from inside callbacks, and `UnregisterCallback` -/
 theorem callbacks_once_in_order [DecidableEq V] {t : Tables} (ht : TablesOk t) (mp : Maps) (imp : Str → Str → J → Option V)
     (behave : Call V → Outcome) (s : State V) (evs : List (Ev J)) (hk : KeysNodup s.cache) :
     Mirrors t mp imp behave s.cache s.regs (history t mp imp behave s evs) ∧
@@ -534,6 +535,33 @@ example : makeSecopError srcTables (some "InternalError".toList)
 /-- the excluded case is real: these two different errors are reported with the same words -/
 example : formatErr srcTables ⟨"InternalError".toList, "InternalError".toList, "ConfigError: x".toList⟩ =
     formatErr srcTables ⟨"ConfigError".toList, "InternalError".toList, "x".toList⟩ := by decide +kernel
+
+/-! ### callbacks that unregister other callbacks while a message is dispatched -/
+
+/-- callback 1 (all events of the node) unregisters callback 3 (events of module `m`) and callback 4 (items of the node)
+when it is called -/
+def exBehave2 : Call Nat → Outcome := fun c =>
+  if c.reg.cb = 1 then ⟨[⟨.event, .module "m".toList, 3⟩, ⟨.item, .node, 4⟩], .ok⟩ else .ok
+
+def exEvs2 : List (Ev Nat) :=
+  [.register ⟨.item, .node, 4⟩, .register ⟨.event, .node, 1⟩, .register ⟨.event, .module "m".toList, 3⟩,
+   .register ⟨.item, .param "m".toList "p".toList, 2⟩,
+   .line 40 (.msg ⟨"update".toList, some "m:_p".toList, .value 7 .absent⟩),
+   .line 41 (.msg ⟨"update".toList, some "m:_p".toList, .value 8 .absent⟩)]
+
+/-- the first message reaches 4 and 2 (the `updateItem` fan-outs come first), then 1, which removes 3 before the module
+fan-out of `updateEvent` begins: 3 misses the message, as the specification allows for a registration removed during
+the dispatch; the second message reaches the two that are left.  The monitor accepts this history and rejects it when
+callback 2 — which nobody removed — is not called for the first message -/
+example : (run srcTables exMaps exImp exBehave2 {} exEvs2).calls.map (·.reg.cb) = [4, 2, 1, 2, 1] ∧
+    (run srcTables exMaps exImp exBehave2 {} exEvs2).regs.map (·.cb) = [1, 2] ∧
+    judge srcTables exMaps exImp exBehave2 (history srcTables exMaps exImp exBehave2 {} exEvs2) = none ∧
+    judge srcTables exMaps exImp exBehave2
+      ((history srcTables exMaps exImp exBehave2 {} exEvs2).map fun st =>
+        (st.1, st.2.1.filter (fun c => c.reg.cb != 2 || c.item.ts != 40), st.2.2)) = some 4 := by decide +kernel
+
+example : Mirrors srcTables exMaps exImp exBehave2 [] [] (history srcTables exMaps exImp exBehave2 {} exEvs2) :=
+  (callbacks_once_in_order tables_ok exMaps exImp exBehave2 {} exEvs2 (by simp [KeysNodup])).1
 
 end example_
 
